@@ -38,7 +38,7 @@ MINIMUMS = {
     "thorough": {"distinct_nontrivial": 10000, "ids_compared": 1500000, "sealed_cyclic_orders": 5000, "pinned_checked": 100, "cross_keys_compared": 40, "submit_variants": 3000, "modify_histories": 15000, "modify_seal_histories": 10000},
 }
 N = {"quick": 1600, "thorough": 48000}
-TIMEOUT = {"quick": 900, "thorough": 10800}
+TIMEOUT = {"quick": 2400, "thorough": 14400}
 PINNED = Path(__file__).resolve().parents[1] / "pinned" / "identifiers.json"
 NCOMMON = 48
 
